@@ -74,9 +74,8 @@ static int rel_of_fd(int fd, char *buf, size_t n) {
     ssize_t k = readlink(link, buf, n - 1);
     if (k <= 0) return 0;
     buf[k] = 0;
-    /* an unlinked file shows as "<path> (deleted)" */
-    char *del = strstr(buf, " (deleted)");
-    if (del) *del = 0;
+    /* an unlinked file shows as "<path> (deleted)": what is written to it is not part of the directory any more */
+    if (strstr(buf, " (deleted)")) return 0;
     const char *r = rel_of_path(buf);
     if (!r) return 0;
     memmove(buf, r, strlen(r) + 1);
